@@ -357,9 +357,12 @@ impl Drop for BreakerBase {
         if std::thread::panicking() {
             return;
         }
+        // read the state before taking the listener lock: every transition (and the exit
+        // hook of a probe entry) takes the state lock first and the listener lock second
+        let state = self.current_state();
         let listeners = state_change_listeners().lock().unwrap();
         for listener in &*listeners {
-            listener.on_circuit_breaker_drop(self.current_state(), Arc::clone(&self.rule));
+            listener.on_circuit_breaker_drop(state, Arc::clone(&self.rule));
         }
     }
 }
